@@ -110,6 +110,14 @@ def _classify(ctx, verdicts, obs_idx, env_idx, row_idx):
         if v["rule"] not in RULES:
             continue
         key = {"rule": v["rule"], "ctor": v["ctor"], "what": v["what"]}
+        if v["rule"] in ("C12.noPanic", "C12.noMissingBody"):
+            # decoder-safety rules: the failing class is (rule, which decoder / stage), not the particular input
+            cls = "panic" if v["rule"] == "C12.noPanic" else "missing"
+            where = set(b.split(":")[0] for b in ((o or {}).get("hostile") or {}).get("bad", []) if b.split(":")[1] == cls)
+            where |= set(d for d in ("net", "ipld") if (o or {}).get(d) == cls)                       # envelope rows
+            where |= set(x.split(":")[0].split("/")[-1] for x in (o or {}).get("panics", []) if cls == "panic")
+            where |= set(d for d in ("net", "ipld", "ext") if isinstance((o or {}).get(d), dict) and (o or {})[d].get("err") == "missing body" and cls == "missing")
+            key = {"rule": v["rule"], "where": sorted(where)}
         detail = {"verdict": v, "observed": o, "row": row_idx.get(v["case"])}
         if o and "a" in o:
             txt = "%s violated for %s(%s)" % (v["rule"], v["ctor"], json.dumps(o["a"], sort_keys=True))
